@@ -203,7 +203,9 @@ class ImageSet(BaseObject):
                 pass
         self._scheduledForDeletion.clear()
         for fileName, data in self._data.items():
-            if not data["dirty"]:
+            # in a save as, loaded images that have not been modified
+            # must be written as well: they are not copied above.
+            if not data["dirty"] and not (saveAs and data["data"] is not None):
                 continue
             writer.writeImage(fileName, data["data"], validate=self.ufoLibWriteValidate)
             data["dirty"] = False
